@@ -36,6 +36,13 @@ func TestMain(m *testing.M) {
 		}
 		return checkInvalid(&c)
 	})
+	stats.RegisterReplay("annotation-keys", func(raw json.RawMessage) error {
+		var c KeySeqCase
+		if err := json.Unmarshal(raw, &c); err != nil {
+			return err
+		}
+		return checkKeySeq(&c)
+	})
 	os.Exit(stats.Finish(m.Run()))
 }
 
@@ -81,10 +88,10 @@ type ikey struct{ v any } // comparable static type, comparable dynamic value he
 var annotKeys = []any{akey{1}, akey{2}, "string-key", 7, ikey{"x"}, [2]int{1, 2}, new(int)}
 
 type state struct {
-	ignore, redirect bool
-	resolver         int // 0 none
-	mws              []int
-	annots           map[int]int
+	ignore, redirect  bool
+	resolver          int // 0 none
+	mws               []int
+	annots            map[int]int
 	ambiguousResolver bool
 }
 
@@ -455,17 +462,17 @@ type holder struct{ V any }
 type deep struct{ H holder }
 
 var invalidKeys = map[string]any{
-	"annotation key nil":                              nil,
-	"annotation key slice":                            []int{1},
-	"annotation key map":                              map[string]int{},
-	"annotation key func":                             func() {},
-	"annotation key named slice":                      sliceKey{1},
-	"annotation key struct with slice field":          struct{ S []int }{[]int{1}},
-	"annotation key array of slices":                  [1][]int{{1}},
-	"annotation key struct holding slice in interface": holder{[]int{1}},
+	"annotation key nil":                                    nil,
+	"annotation key slice":                                  []int{1},
+	"annotation key map":                                    map[string]int{},
+	"annotation key func":                                   func() {},
+	"annotation key named slice":                            sliceKey{1},
+	"annotation key struct with slice field":                struct{ S []int }{[]int{1}},
+	"annotation key array of slices":                        [1][]int{{1}},
+	"annotation key struct holding slice in interface":      holder{[]int{1}},
 	"annotation key nested struct holding map in interface": deep{holder{map[int]int{}}},
-	"annotation key array of interfaces holding func":  [1]any{func() {}},
-	"annotation key pointer to slice (valid)":          &[]int{1},
+	"annotation key array of interfaces holding func":       [1]any{func() {}},
+	"annotation key pointer to slice (valid)":               &[]int{1},
 }
 
 var invalidNames = func() []string {
@@ -586,4 +593,97 @@ func TestInvalidOptions(t *testing.T) {
 		}
 	}
 	stats.Sample(InvalidCase{What: invalidNames[0]})
+}
+
+// ---- sequences of annotation keys: whether a key is accepted depends on that key alone, not on the keys seen before ----
+
+// keyPool pairs keys of the same Go type whose usability as a map key differs by dynamic value.
+var keyPool = []struct {
+	Name string
+	Key  any
+}{
+	{"holder{int}", holder{1}}, {"holder{[]int}", holder{[]int{1}}}, {"holder{string}", holder{"s"}}, {"holder{map}", holder{map[int]int{}}},
+	{"[1]any{int}", [1]any{1}}, {"[1]any{func}", [1]any{func() {}}}, {"[1]any{string}", [1]any{"x"}},
+	{"deep{holder{int}}", deep{holder{2}}}, {"deep{holder{[]int}}", deep{holder{[]int{2}}}},
+	{"akey", akey{9}}, {"string", "k"}, {"[]int", []int{1}}, {"*int", new(int)}, {"struct{any}{nil}", struct{ V any }{nil}}, {"struct{any}{[]byte}", struct{ V any }{[]byte("x")}},
+}
+
+type KeySeqCase struct {
+	Keys    []int `json:"keys"` // indexes into the key pool, used in this order on one router
+	ViaNew  bool  `json:"via_new_route,omitempty"`
+	Routers int   `json:"routers,omitempty"` // >1: spread over that many routers (the rule is per key, not per router)
+}
+
+// hashable is the ground truth: the key can be used in a map without panicking.
+func hashable(k any) (ok bool) {
+	defer func() {
+		if recover() != nil {
+			ok = false
+		}
+	}()
+	_ = map[any]int{k: 1}
+	return k != nil
+}
+
+func checkKeySeq(c *KeySeqCase) (err error) {
+	var desc []string
+	defer func() {
+		if r := recover(); r != nil {
+			err = fmt.Errorf("annotation keys %v: panic instead of an error: %v", desc, r)
+		}
+	}()
+	h := func(fox.Context) {}
+	n := max(c.Routers, 1)
+	fs := make([]*fox.Router, n)
+	for i := range fs {
+		f, e := fox.New()
+		if e != nil {
+			return e
+		}
+		fs[i] = f
+	}
+	for i, ki := range c.Keys {
+		if ki < 0 || ki >= len(keyPool) {
+			return fmt.Errorf("bad key index %d", ki)
+		}
+		k := keyPool[ki]
+		desc = append(desc, k.Name)
+		f := fs[i%n]
+		pat := fmt.Sprintf("/k/%d", i)
+		var rte *fox.Route
+		var e error
+		if c.ViaNew {
+			rte, e = f.NewRoute(pat, h, fox.WithAnnotation(k.Key, i+1))
+		} else {
+			rte, e = f.Handle("GET", pat, h, fox.WithAnnotation(k.Key, i+1))
+		}
+		if hashable(k.Key) {
+			if e != nil {
+				return fmt.Errorf("annotation keys used in order %v: the valid key %s was rejected: %v", desc, k.Name, e)
+			}
+			if got := rte.Annotation(k.Key); got != i+1 {
+				return fmt.Errorf("annotation keys used in order %v: Annotation(%s) = %v, want %d", desc, k.Name, got, i+1)
+			}
+		} else if !errors.Is(e, fox.ErrInvalidConfig) {
+			return fmt.Errorf("annotation keys used in order %v: the key %s cannot be a map key, got err=%v, want ErrInvalidConfig", desc, k.Name, e)
+		}
+	}
+	return nil
+}
+
+func TestAnnotationKeySequences(t *testing.T) {
+	rapid.Check(t, func(t *rapid.T) {
+		c := &KeySeqCase{ViaNew: gen.Chance(t, 1, 3, "vianew"), Routers: gen.IntR(t, 1, 2, "routers")}
+		for i, n := 0, gen.IntR(t, 2, 8, "nkeys"); i < n; i++ {
+			c.Keys = append(c.Keys, gen.IntR(t, 0, len(keyPool)-1, "key"))
+		}
+		stats.Eval()
+		stats.Sample(c)
+		stats.Class("annotation-key-sequence")
+		stats.NonTrivial(fmt.Sprintf("keyseq|%v|%v|%d", c.Keys, c.ViaNew, c.Routers))
+		if err := checkKeySeq(c); err != nil {
+			stats.Fail("annotation-keys", c, "%v", err)
+			t.Fatalf("%v", err)
+		}
+	})
 }
